@@ -239,7 +239,7 @@ _SWAPPED = {}          # layer name -> streams saved by its setUp
 def _hook_body(lname, hook, faults):
     emit('L', lname, hook, '>')
     extra = _LAYER_EXTRA.get(lname) or {}
-    if extra.get('slow') and hook in ('setUp', 'tearDown'):
+    if extra.get('slow') and hook in ('setUp', 'tearDown') and extra.get('slow_only') in (None, hook):
         WARP(extra['slow'])          # this hook "takes" that many seconds
     if extra.get('sw'):
         # a layer that runs with a private sys.stdout of its own
